@@ -1,11 +1,14 @@
 """C19 -- tensor regressors predict with exactly the weights they expose.
 Correspondence: Model/Regress.v vs tensorly/regression/{cp_regression,tucker_regression,cp_plsr}.py
   * predict on injected integer weights, bit-exact in Z (every per-sample order 1-3 / output shape, + rejected shapes)
-  * after a real fit: the exposed float64 attributes are read as exact rationals, the model computes
-    weight_tensor_ / vec_W_ from the factors, predict(X) from weight_tensor_ / vec_W_, CP_PLSR.transform /
-    predict / X_mean_ from the fitted attributes in Q; compared with the implementation (1e-9).
-Predicates (implementation only): the statements of the property, see cp_predicates / tucker_predicates /
-plsr_predicates."""
+  * after a real fit: the exposed float64 attributes are read as exact rationals; the model computes
+    weight_tensor_ / vec_W_ from the factors and predict(X) from weight_tensor_ / vec_W_ in Q (1e-9);
+    CP_PLSR X_mean_ / transform (X and Y branch) / predict from the fitted attributes in 70-bit fixed point (1e-9)
+  * the whole of CP_PLSR.fit (inner power iteration, deflations, coefficients) with pinned pass counts, the answers
+    of initialize_cp and lstsq recorded from the implementation, in 70-bit fixed point (1e-8)
+Predicates (implementation only): the statements of the property, see reg_predicates / plsr_predicates.
+A per-call timeout (loaded machine) skips the case; a vacuity guard fails the check when most constructed
+well-posed problems do not give a finite fit."""
 import itertools, random
 import numpy as np
 from harness import common as C
@@ -601,8 +604,8 @@ def run(chk):
                        "(quick: half of the order-3 ones) + flattened weights + mis-shaped requests, exact in Z; "
                        "random regression problems (samples 2-8, per-sample order 1-3, scalar / vector / matrix targets for CP, scalar for Tucker, ranks 1-3, reg_W in {0.01..10}, "
                        "1-25 sweeps, seeds): fitted attributes -> model in Q vs implementation (1e-9); CP_PLSR problems (samples 2-8, per-sample order 1-3, 1-D and 1-3 column Y, 1-3 components, "
-                       "converged fits and fits stopped after 1-3 passes): X_mean_, transform, predict from the fitted attributes -> model in 70-bit binary fixed point vs implementation (1e-9); "
-                       "whole CP_PLSR.fit with pinned pass counts (tol=0: n_iter_max in 1-4 resp. up to 30 in thorough; tol=1e300: stops after pass 2), samples 3-6, 1-3 components, "
+                       "converged fits and fits stopped after 1-3 passes): X_mean_, transform(X), transform(X_train, Y_train)[1], predict from the fitted attributes -> model in 70-bit binary fixed point vs implementation (1e-9); "
+                       "whole CP_PLSR.fit with pinned pass counts (tol=0: n_iter_max in 1-4 resp. up to 30 in thorough; tol=1e300: stops after pass 2), samples 3-7, 1-3 components, "
                        "initialize_cp / lstsq answers recorded from the implementation -> per-component loadings, X/Y scores, Y loadings of the model (fixed point) vs implementation (1e-8); "
                        "a case is non-trivial if the fit succeeded with finite weights; distinct key = (regressor, X shape, y shape, rank)")
     for b in broken:
